@@ -120,9 +120,10 @@ def resolve(reg, ns, ev, args):
     classes = {c['ns']: {m['ev']: m for m in c['methods']} for c in reg['classes']}
     res = ev in RESERVED
     cand = []
-    if ev != '*':
+    # a namespace literally named '*' is never an exact-namespace match (/repo 74a0887)
+    if ev != '*' and ns != '*':
         cand.append(((ns, ev), list(args)))
-    if not res:
+    if not res and ns != '*':
         cand.append(((ns, '*'), [ev] + list(args)))
     if ev != '*':
         cand.append((('*', ev), [ns] + list(args)))
@@ -134,7 +135,7 @@ def resolve(reg, ns, ev, args):
             if ev == 'disconnect' and hh.get('legacy'):
                 a = a[:-1]
             return ('fn', key[0], key[1], a, hh['ret'])
-    if ns in classes:
+    if ns != '*' and ns in classes:
         m = classes[ns].get(ev)
         if m is None:
             return None
